@@ -281,8 +281,8 @@ func (c *Ctx) Finish(verifDir string, start time.Time, level string) int {
 		"wall_s":      time.Since(start).Seconds(),
 		"violations":  nViol,
 	}
-	if ev["assumptions"] == nil {
-		ev["assumptions"] = []string{}
+	if len(c.Assume) == 0 {
+		ev["assumptions"] = []string{"the analysed sources type-check and contain no reflection/unsafe access to the anchored state (asserted by the loader)"}
 	}
 	eb, _ := json.MarshalIndent(ev, "", " ")
 	os.MkdirAll(filepath.Join(verifDir, "evidence"), 0o755)
